@@ -96,6 +96,9 @@ Definition scan_string (l : list byte) : option nat :=
     if head_is 34 (skipn (1 + n) l) then Some (1 + n + 1) else None
   else None.
 
+(* ---- literals ---- *)
+Definition scan_lit (s l : list byte) : option nat := if prefixb s l then Some (length s) else None.
+
 (* ---- structure: parsers with results.  P A: byte offset of the suffix -> suffix -> (result, bytes consumed) ---- *)
 Definition P (A : Type) : Type := nat -> list byte -> option (A * nat).
 
@@ -167,18 +170,18 @@ Definition p_pair (pv : P jdoc) : P (nat * nat * jdoc) :=
 Definition p_string : P jdoc := p_map (fun s => JString (fst s) (snd s)) (p_scan scan_string).
 Definition p_number : P jdoc := p_map (fun s => JNumber (fst s) (snd s)) (p_scan scan_number).
 Definition p_bool : P jdoc :=
-  p_or (p_span (fun o e _ => JBool true o e) (p_lit lit_true)) (p_span (fun o e _ => JBool false o e) (p_lit lit_false)).
+  p_span (fun o e b => JBool b o e) (p_or (p_map (fun _ => true) (p_lit lit_true)) (p_map (fun _ => false) (p_lit lit_false))).
 Definition p_null : P jdoc := p_span (fun o e _ => JNull o e) (p_lit lit_null).
 
-Fixpoint parse_value (fuel : nat) : P jdoc :=
+Fixpoint parse_value (fuel : nat) (o : nat) (l : list byte) {struct fuel} : option (jdoc * nat) :=
   match fuel with
-  | 0 => fun _ _ => None
+  | 0 => None
   | S f =>
     p_or (p_or (p_or (p_or (p_or p_string p_number)
       (p_span JObject (p_list 123 125 (p_pair (parse_value f)))))
       (p_span JArray (p_list 91 93 (parse_value f))))
       p_bool)
-      p_null
+      p_null o l
   end.
 
 (* JSON-text = ws value ws *)
